@@ -111,7 +111,8 @@ where
                 continue;
             }
             if *key_bytes >= *end_key_bytes {
-                break;
+                // The cache is not ordered, keys visited later may still be in range
+                continue;
             }
             if let Some(cache) = self.cache.get(key) {
                 if let Some(value) = cache.latest() {
